@@ -50,7 +50,9 @@ func edgeOperands(quick bool) [][]byte {
 		{0x00, 0x80}, {0x01, 0x80}, {0x01, 0x00, 0x80}, {0x7f, 0x00, 0x00, 0x80}, {0x01, 0x00}, {0x00, 0x01}, {0xff, 0x00}, {0xff, 0x80}, {0x80, 0x00}, {0xff, 0x7f},
 		{0xff, 0xff, 0xff, 0x7f}, {0xff, 0xff, 0xff, 0xff}, {0x00, 0x00, 0x00, 0x80}, {0x01, 0x00, 0x00, 0x00},
 		{0x00, 0x00, 0x00, 0x80, 0x00}, {0x01, 0x02, 0x03, 0x04, 0x05}, {0xff, 0xff, 0xff, 0xff, 0x7f},
-		append(rep(0x11, 32), 0x91), append(rep(0x22, 33), 0x80)}
+		append(rep(0x11, 32), 0x91), append(rep(0x22, 33), 0x80),
+		// beyond the int64 range (post-Genesis numbers may be that long): 2^63, 2^64+1, -2^63, 2^71-1
+		{0, 0, 0, 0, 0, 0, 0, 0x80, 0x00}, {1, 0, 0, 0, 0, 0, 0, 0, 0x01}, {0, 0, 0, 0, 0, 0, 0, 0x80, 0x80}, {0xff, 0xff, 0xff, 0xff, 0xff, 0xff, 0xff, 0xff, 0x7f}}
 	if !quick {
 		e = append(e, [][]byte{{0x00, 0x00}, {0x80, 0x80}, {0x03}, {0x08}, {0x09}, {0x21}, {0x00, 0x00, 0x01},
 			{0xff, 0xff, 0xff, 0xff, 0xff, 0xff, 0xff, 0xff, 0x7f}, {0x00, 0x00, 0x00, 0x00, 0x00, 0x00, 0x00, 0x80},
